@@ -1,5 +1,6 @@
 import Driver.Common
 import RSocketModel.Engine.Step
+import RSocketModel.Codec
 open RSocketModel RSocketModel.Engine
 namespace Driver
 
@@ -87,18 +88,84 @@ def showOut : Out → String
   | .created o sid => s!"CR:{o}:{sid}"
   | .raised w => s!"RA:{w}"
 
+/-- strict UTF-8 (what `bytes.decode('utf-8')` accepts): no overlong forms, no surrogates, ≤ U+10FFFF -/
+def validUtf8 : List UInt8 → Bool
+  | [] => true
+  | a :: rest =>
+    let cont (b : UInt8) : Bool := 0x80 ≤ b && b ≤ 0xBF
+    if a ≤ 0x7F then validUtf8 rest
+    else if 0xC2 ≤ a && a ≤ 0xDF then
+      match rest with
+      | b :: r => cont b && validUtf8 r
+      | _ => false
+    else if 0xE0 ≤ a && a ≤ 0xEF then
+      match rest with
+      | b :: c :: r =>
+        let okb := if a == 0xE0 then 0xA0 ≤ b && b ≤ 0xBF else if a == 0xED then 0x80 ≤ b && b ≤ 0x9F else cont b
+        okb && cont c && validUtf8 r
+      | _ => false
+    else if 0xF0 ≤ a && a ≤ 0xF4 then
+      match rest with
+      | b :: c :: d :: r =>
+        let okb := if a == 0xF0 then 0x90 ≤ b && b ≤ 0xBF else if a == 0xF4 then 0x80 ≤ b && b ≤ 0x8F else cont b
+        okb && cont c && cont d && validUtf8 r
+      | _ => false
+    else false
+
+/-- a decoded wire frame as the engine sees it (payload data as tags; metadata only matters for
+METADATA_PUSH, whose handler receives it) -/
+def toEngine : Codec.Frame → Frame
+  | .setup s _ l r _ _ _ _ _ _ _ _ d => { ty := .setup, sid := s, complete := l, respond := r, data := d.map (·.toNat) }
+  | .lease s _ ttl n _ => { ty := .lease, sid := s, n := n, code := ttl }
+  | .keepalive s _ r _ d => { ty := .keepalive, sid := s, respond := r, data := d.map (·.toNat) }
+  | .requestResponse s _ f _ d => { ty := .requestResponse, sid := s, follows := f, data := d.map (·.toNat) }
+  | .requestFnf s _ f _ d => { ty := .requestFnf, sid := s, follows := f, data := d.map (·.toNat) }
+  | .requestStream s _ f n _ d => { ty := .requestStream, sid := s, follows := f, n := n, data := d.map (·.toNat) }
+  | .requestChannel s _ f c n _ d => { ty := .requestChannel, sid := s, follows := f, complete := c, n := n, data := d.map (·.toNat) }
+  | .requestN s _ n => { ty := .requestN, sid := s, n := n }
+  | .cancel s _ => { ty := .cancel, sid := s }
+  | .payload s _ f c nx _ d => { ty := .payload, sid := s, follows := f, complete := c, next := nx, data := d.map (·.toNat) }
+  | .error s _ c d => { ty := .error, sid := s, code := c, respond := !validUtf8 d }
+  | .metadataPush s _ md => { ty := .metadataPush, sid := s, data := md.map (·.toNat) }
+  | .resume s .. => { ty := .resume, sid := s }
+  | .resumeOk s .. => { ty := .resumeOk, sid := s }
+
+/-- a script item: an engine event, or one raw message handed to the receiver (`RAW:<hex>:<beh>`):
+decoded with the codec model, then dispatched; ignored / invalid input is a no-op -/
+inductive EngItem where
+  | ev (e : Ev)
+  | raw (b : Bytes) (beh : Behaviour)
+
+def parseEngItem (t : String) : Option EngItem :=
+  match t.splitOn ":" with
+  | ["RAW", h, b] => do pure (.raw (← ofHex h) (← parseBeh b))
+  | _ => (parseEv t).map .ev
+
+def runItems (st : State) : List EngItem → State × List String
+  | [] => (st, [])
+  | it :: rest =>
+    let (st', out) : State × String :=
+      match it with
+      | .ev e => let r := step st e; (r.1, " ".intercalate (r.2.map showOut))
+      | .raw b beh =>
+        match Codec.decode b with
+        | .frame f => let r := step st (.recv (toEngine f) beh); (r.1, " ".intercalate (r.2.map showOut))
+        | .outOfDomain => (st, "OOD")
+        | _ => (st, "")
+    let r := runItems st' rest
+    (r.1, out :: r.2)
+
 /-- `eng <first> <hasLeasePublisher 0|1> <event>...` → per-event outputs separated by ` | `, then the
 final table and cache stream ids -/
 def cmdEng (args : List String) : String :=
   match args with
   | first :: lp :: evs =>
-    match first.toNat?, parseBool lp, evs.mapM parseEv with
-    | some first, some lp, some evs =>
-      let r := run (init first lp) evs
-      let steps := r.2.map fun outs => " ".intercalate (outs.map showOut)
+    match first.toNat?, parseBool lp, evs.mapM parseEngItem with
+    | some first, some lp, some items =>
+      let r := runItems (init first lp) items
       let sids := (r.1.table.map (·.1)).toArray.qsort (· < ·) |>.toList
       let cs := (r.1.cache.map (·.1)).toArray.qsort (· < ·) |>.toList
-      s!"{" | ".intercalate steps} || T={showNatList sids} C={showNatList cs}"
+      s!"{" | ".intercalate r.2} || T={showNatList sids} C={showNatList cs}"
     | _, _, _ => "bad-op"
   | _ => "bad-op"
 
